@@ -366,6 +366,9 @@ def build_hyps(engine, pc, univ, idx0, apps0, sums, path=None, goal=None, rounds
     for a in range(len(sums)):
         for b in range(a + 1, len(sums)):
             sum_lem += sums[a].pair_lemmas(sums[b], path)
+            for cf in getattr(path, 'sum_scales', []) if path is not None else []:
+                sum_lem += sums[a].scale_lemmas(sums[b], path, cf)
+                sum_lem += sums[b].scale_lemmas(sums[a], path, cf)
     base += sum_lem
     if path is not None:
         # definitions introduced while the summands were evaluated at their witnesses (named terms, list equalities):
@@ -420,3 +423,33 @@ def build_hyps(engine, pc, univ, idx0, apps0, sums, path=None, goal=None, rounds
     if len(sc) > 1:
         hy.append(z3.Distinct(*sc))
     return hy
+
+
+def ground_atoms(t):
+    """ids of the uninterpreted constants / applications occurring in t"""
+    out = set()
+    for x in walk([t]):
+        if z3.is_app(x) and x.decl().kind() == z3.Z3_OP_UNINTERPRETED:
+            out.add(x.get_id())
+    return out
+
+
+def cone_of_influence(hyps, goal, steps=2, max_nodes=160):
+    small = []
+    for h in hyps:
+        if sum(1 for _ in zip(range(max_nodes + 1), walk([h]))) <= max_nodes:
+            small.append((h, ground_atoms(h)))
+    atoms = ground_atoms(goal)
+    chosen = {}
+    for _ in range(steps):
+        new_atoms = set()
+        for k, (h, at) in enumerate(small):
+            if k not in chosen and at & atoms:
+                chosen[k] = h
+                new_atoms |= at
+        atoms |= new_atoms
+    # closed facts without atoms in common (bounds on constants) are cheap: keep the tiny ones
+    for k, (h, at) in enumerate(small):
+        if k not in chosen and len(at) <= 1:
+            chosen[k] = h
+    return list(chosen.values())
